@@ -17,6 +17,7 @@ type SrcPatch struct {
 	File string `json:"file"` // relative to /repo
 	Old  string `json:"old"`
 	New  string `json:"new"`
+	All  bool   `json:"all,omitempty"` // replace every occurrence (at least one must exist)
 }
 
 type ReplayRecord struct {
@@ -63,12 +64,17 @@ func replayRecord(rec *ReplayRecord) (bool, string) {
 		if err != nil {
 			return false, "replay patch: " + err.Error()
 		}
-		if strings.Count(string(src), sp.Old) != 1 {
+		target := filepath.Join(repoRoot, sp.File)
+		if prev, ok := repl[target]; ok { // several patches on one file compose
+			src, _ = os.ReadFile(prev)
+		}
+		cnt := strings.Count(string(src), sp.Old)
+		if cnt == 0 || (!sp.All && cnt != 1) {
 			return false, "replay patch does not apply to this tree: " + sp.File
 		}
 		p := filepath.Join(tmp, fmt.Sprintf("patched%d.go", k))
-		os.WriteFile(p, []byte(strings.Replace(string(src), sp.Old, sp.New, 1)), 0o644)
-		repl[filepath.Join(repoRoot, sp.File)] = p
+		os.WriteFile(p, []byte(strings.Replace(string(src), sp.Old, sp.New, -1)), 0o644)
+		repl[target] = p
 	}
 	call := rec.Harness + "()"
 	body := ""
